@@ -85,7 +85,9 @@ def run_case(case, ctx):
     rng = np_rng(ID, case["seed"], case["t"], kind, n, case.get("basis"), case["rep"])
     nh = int(rng.integers(1, 4))
     na = int(rng.integers(1, 4))
-    scales = SC if rng.random() < 0.85 else [1.0, 3.0, 10.0]
+    u_ = rng.random()
+    scales = SC if u_ < 0.75 else ([1.0, 3.0, 10.0] if u_ < 0.9 else gen.SCALES_FULL)  # last class: up to 30, tiny unnormalised weights
+    ctx.seen("scale_classes", 0 if u_ < 0.75 else (1 if u_ < 0.9 else 2))
     am, ph = gen.draw_model(rng, kind, n, nh, na, scales=scales)
     if case["rep"] % 2 == 0 and case["t"] != "single" or (case["t"] == "single" and len(case["basis"]) % 2 == 0):
         def warm(s_):
